@@ -189,6 +189,8 @@ theorem good_makeRef {e n} : Good (makeRef e n) := by unfold makeRef; good
 macro_rules | `(tactic| good_lemma) => `(tactic| with_reducible exact good_makeRef)
 theorem good_envGet {e n} : Good (envGet e n) := by unfold envGet; good
 macro_rules | `(tactic| good_lemma) => `(tactic| with_reducible exact good_envGet)
+theorem good_rootBindsFunc {n} : Good (rootBindsFunc n) := by unfold rootBindsFunc; good
+macro_rules | `(tactic| good_lemma) => `(tactic| with_reducible exact good_rootBindsFunc)
 theorem good_envCreate {e n v} : Good (envCreate e n v) := by unfold envCreate; good
 macro_rules | `(tactic| good_lemma) => `(tactic| with_reducible exact good_envCreate)
 theorem good_functionChanged {w o} : Good (functionChanged w o) := by unfold functionChanged; good
